@@ -81,6 +81,8 @@ def run_case(rng, idx, tier, lane, ctx):
         cls.append("x0-ndarray-shared")
     y_before, t_before = c.y.copy(), np.array(c.times, dtype=float).copy()
     try:
+        if rng.random() < 0.25:
+            LC.other_model_first(rng, c, counters)
         sibling = LC.make_loss(c) if c.x0_as_array else None
         obj = LC.make_loss(c)
     except Exception as e:
